@@ -146,6 +146,7 @@ func init() {
 			guard(r, func() { foundation(r) })
 			guard(r, func() { ruleFootprint(r, "E.footprint", footSel("(column.rw", "(column.rd", "(column.Row)."), 40) })
 			guard(r, func() { ruleMergeReentrant(r) }) // a merge that decodes into state shared by all blocks stores another row's value
+			guard(r, func() { ruleSwapInPlaceSameSize(r) })
 		}})
 	register(&PropSpec{ID: "C02",
 		Explanation: "Atomicity — structural part. (C02.query) path rules over Collection.Query/rollback/commit/reset: error edge ⇒ rollback only, nil edge ⇒ commit only, transaction released, buffers dropped on every exit; (C02.effects) who-may-call over the context graph of the lockset walk: every Apply body and every logger/recorder append is reachable only below Txn.commit (or index back-fill); (C02.isolation) no bit of the shared fill list is set outside commit; (C02.release) failing inserts free their offset and leave no marker, rollback releases the offsets of successful inserts; (C02.readers) no reading API decodes a transaction buffer." + staticNote,
@@ -165,6 +166,8 @@ func init() {
 			guard(r, func() {
 				ruleFootprint(r, "E.footprint", footSel("(*column.Collection).Query", "(*column.Collection).QueryAt", "(*column.Collection).Insert", "(*column.Collection).DeleteAt", "(*column.Txn).Insert", "(*column.Txn).QueryAt", "(*column.Txn).DeleteAt"), 4)
 			})
+			guard(r, func() { ruleCommitUpdates(r) }) // "applies every change it buffered": every buffer is visited
+			guard(r, func() { ruleFreeBitNonZero(r) })
 		}})
 	register(&PropSpec{ID: "C03",
 		Explanation: "Bitmap indexes equal their predicate — structural part. (C03.arms) arm effects of columnIndex.Apply (Put: predicate, set on true edge / clear on false edge; Delete: clear); (C03.twopass) computed columns get a fresh pass over the merge-rewritten buffer after the column itself; (C03.rowdelete) row markers reach every registry entry; (C03.register) computed columns are registered under their own name and in the target's list, and dropped from both; (C03.backfill) index creation back-fills from every block; (C07.abs) every Snapshot implementation emits absolute offsets (the back-fill input); (C03.order) no reader method appends to the buffer being replayed; (C11.order) updates are applied before markers so a put+delete of one row leaves no index bit; (C01.arms) every storage Merge arm swaps the delta for the final value." + staticNote,
@@ -237,6 +240,7 @@ func init() {
 			guard(r, func() { ruleWireGrammar(r) })
 			guard(r, func() { ruleSerialisersReadOnly(r) })
 			guard(r, func() { ruleRangeCountAgrees(r) })
+			guard(r, func() { ruleSwapInPlaceSameSize(r) })
 		}})
 	register(&PropSpec{ID: "C06",
 		Explanation: "Replica convergence — structural part. (L5.emit) every append to logger/recorder happens under the block's exclusive latch, so per block emission order = apply order for all schedules; (C06.emitorder) emission after updates and markers were applied (merges rewritten); (C06.emitfields) the emitted commit names this block, the drawn id and the transaction's buffers; (C06.clone, C05.copy) the channel logger sends a deep clone, the file logger serialises synchronously; (C06.replay) Replay marks the commit's block and queues every non-empty buffer through a transaction; (C03.order) no replay-time append reorders operations; (C01.arms) Merge arms swap in the final value." + staticNote,
@@ -274,6 +278,8 @@ func init() {
 			guard(r, func() { ruleCommitWritesOwnChunk(r) })
 			guard(r, func() { ruleRangeCountAgrees(r) })
 			guard(r, func() { ruleSerialisersReadOnly(r) })
+			guard(r, func() { ruleSwapInPlaceSameSize(r) })
+			guard(r, func() { ruleLogWriterLocked(r) })
 		}})
 	register(&PropSpec{ID: "C07",
 		Explanation: "Restore reproduces the collection — structural part. (C07.abs) offset-kind analysis of every Snapshot implementation, the state writer and PutBitmap: absolute offsets into the buffer, relative into per-block storage; (C07.count) the announced buffer count and the buffers written use one predicate; (C13.whole) readState applies each block through its own transaction and only when the block was read completely; (C11.markers) insert markers rebuild the fill list and the count; (U.defs) block arithmetic." + staticNote,
@@ -307,6 +313,7 @@ func init() {
 			guard(r, func() { ruleWireGrammar(r) })
 			guard(r, func() { ruleSnapshotComplete(r) })
 			guard(r, func() { ruleL5emit(r) }) // a commit applied before Snapshot returned and recorded nowhere is a row that differs after Restore
+			guard(r, func() { ruleExactReads(r) })
 		}})
 	register(&PropSpec{ID: "C08",
 		Explanation: "Snapshot under concurrent commits is a consistent cut — structural part. (L5.id) the commit id is drawn, stored and handed on while the block's exclusive latch is held (so per block id order = apply order for all schedules); (L5.emit) the recorder append and the recording test happen under that latch; (C08.read) the snapshot reads id, fill slice and columns of a block under the block latch and the collection mutex; (C08.order) recorder opened before the state is written, log copied after; (C08.replay) restore replays exactly the commits whose id is not below the block's stored id; (C02.isolation) the fill slice read contains only committed rows; (L4) commit-id table discipline." + staticNote,
@@ -340,6 +347,8 @@ func init() {
 			guard(r, func() { ruleRangeCountAgrees(r) })
 			guard(r, func() { ruleCommitWritesOwnChunk(r) })
 			guard(r, func() { ruleSerialisersReadOnly(r) })
+			guard(r, func() { ruleDecodeFresh(r) })
+			guard(r, func() { ruleLogWriterLocked(r) })
 		}})
 	register(&PropSpec{ID: "C09",
 		Explanation: "Concurrent merges are never lost — structural part. (C01.arms …/Merge/rmw) in every Merge arm the old value is loaded from the element that is stored, merged with the delta read from the buffer, and swapped back into the buffer, inside one Apply body; (L1) every Apply runs under the block's exclusive latch on every call path, so the read-modify-write is atomic per block for all schedules; (C09.queue) every Merge accessor queues the delta and reads nothing." + staticNote,
@@ -356,6 +365,8 @@ func init() {
 				return strings.HasSuffix(n, ").Merge") || strings.HasPrefix(n, "(column.Row).Merge") || n == "(column.rwTTL).Extend"
 			}, 10)
 			guard(r, func() { ruleCodecFlags(r) }) // a merge that is not encoded (or shifts the offsets of the ones after it) is lost
+			guard(r, func() { ruleCommitUpdates(r) }) // a merge in a buffer that is never visited is lost
+			guard(r, func() { ruleSwapInPlaceSameSize(r) })
 		}})
 	register(&PropSpec{ID: "C10",
 		Explanation: "No half-applied commit visible on a row — static lock discipline. A closure-sensitive must-hold lockset analysis walks every call path from the exported API (SSA, CHA for interface calls, environment-resolved closures) and decides: (L1) every call that applies a commit to a registered column holds the block's exclusive latch; (L2) every client callback invoked after the cursor was positioned holds the block latch; (C10.shard) the shard locked is the block the critical section works on; (C10.single) markers and all column updates of a block are applied inside one critical section; (L0) lock operations are balanced and pair on the same shard. If these hold no interleaving can place a reader's callback between two column updates of one commit on the row's block." + staticNote,
@@ -372,6 +383,7 @@ func init() {
 			guard(r, func() {
 				ruleFootprint(r, "E.footprint", footSel("(*column.Collection).Query", "(*column.Collection).QueryAt", "(*column.Txn).QueryAt", "(*column.Txn).Range"), 3)
 			})
+			guard(r, func() { ruleL7mode(r, nil, 2) }) // a commit whose Apply races with a header-replacing Grow loses one of its columns
 		}})
 	register(&PropSpec{ID: "C11",
 		Explanation: "Insert offsets never collide, reused offsets carry no stale data — structural part. (C11.reserve, L4) next() picks and marks the offset in one exclusive section, every fill-list access is under the collection mutex, the counter is atomic-only; (C11.markers) commitMarkers sets/clears fill bits per marker and recounts; (C03.rowdelete) row deletes reach every registry entry; (C01.arms, C03.arms) every kind's Delete arm clears presence / the index bit; (C11.order) updates are applied before markers; (C02.release) failing inserts and rollbacks release their offsets." + staticNote,
@@ -394,6 +406,7 @@ func init() {
 			guard(r, func() {
 				ruleFootprint(r, "E.footprint", footSel("(*column.Txn).Insert", "(*column.Collection).Insert", "(*column.Txn).InsertKey", "(*column.Txn).UpsertKey", "(*column.Collection).Query"), 4)
 			})
+			guard(r, func() { ruleFreeBitNonZero(r) })
 		}})
 	register(&PropSpec{ID: "C12",
 		Explanation: "Primary keys behave like a map — structural part. (C12.arms) key column Apply maintains the lookup table: insert on Put with the stored value as key, removal of the row's previous key on overwrite, removal of the stored key on Delete; (C12.paths) guard structure of InsertKey/UpsertKey/QueryKey/DeleteKey/SetKey; (L6) table accessed under the key lock; (C12.atomic) existence test and insertion form one atomic step; (C11.order) a put+delete of one row leaves no table entry." + staticNote,
@@ -435,6 +448,8 @@ func init() {
 			// with it, else a cut between two recorded commits replays the older over a block that holds the newer
 			guard(r, func() { ruleReadChunk(r) })
 			guard(r, func() { ruleStateVersion(r) })
+			guard(r, func() { ruleL5id(r) }) // the replay guard compares ids of one block: they follow the order of application
+			guard(r, func() { ruleErrNotOverwritten(r, "C13.err", []string{"(*commit.Commit).ReadFrom", "(*commit.Buffer).ReadFrom", "commit.readChunksFrom", "(*commit.Log).Range", "(*column.Collection).readState", "(*column.Collection).Restore"}) })
 		}})
 	register(&PropSpec{ID: "C14",
 		Explanation: "A failed snapshot reports the error and leaves the collection usable — structural part. (C14.pair) must-pass-through on Snapshot's flow graph: after the recorder was opened every exit uninstalls it, closes the temporary log and removes its file; losing the installation race cleans up; (C14.err) error-flow: no error on the state-writing path is discarded." + staticNote,
@@ -449,6 +464,7 @@ func init() {
 			guard(r, func() { ruleStateFlush(r) })
 			guard(r, func() { ruleFootprint(r, "E.footprint", footSel("(*column.Collection).Snapshot"), 1) })
 			guard(r, func() { ruleL0(r) }) // "leaves the collection usable": a latch leaked on an error exit hangs every later commit to the block
+			guard(r, func() { ruleErrNotOverwritten(r, "C14.err", []string{"(*column.Collection).Snapshot", "(*column.Collection).writeState", "(*commit.Log).Copy", "(*commit.Log).Append", "(*column.Collection).recorderOpen", "(*column.Collection).recorderClose", "(*commit.Buffer).WriteTo", "(*commit.Commit).WriteTo"}) })
 		}})
 	register(&PropSpec{ID: "C15",
 		Explanation: "Change stream exactly-once, per-block ordered, identifiable — structural part. (C15.once) the commit callback's flow graph is evaluated under all 16 valuations of its guards: one logger append iff rows changed or a column was updated, one callback per dirty block; (C15.dirty) dirty blocks come from the buffers' headers; (C02.effects emit/*) appends only below commit; (L5.id) ids drawn under the exclusive latch from one atomic counter ⇒ per block id order = apply order = emission order (with L5.emit); (C06.emitfields) emitted fields; (C05.copy) Commit.Clone keeps the id." + staticNote,
@@ -539,6 +555,7 @@ func init() {
 			guard(r, func() { ruleReadChunk(r) })
 			guard(r, func() { ruleQueryPaths(r) }) // the pooled Txn is handed to one caller at a time
 			guard(r, func() { rulePool(r) })
+			guard(r, func() { ruleLogWriterLocked(r) })
 		}})
 	register(&PropSpec{ID: "C19",
 		Explanation: "Triggers fire once per committed change with the final value — structural part. (C19.arms) the trigger's Apply loop calls back on every path for Put and Delete, never for Insert/Merge/Skip, one call per operation, with the positioned reader; (C03.twopass) computed pass after the main pass over the rewritten buffer; (C01.arms) every Merge arm swaps ⇒ the trigger sees a Put of the final value; (C03.rowdelete) row deletes reach the trigger's own registry entry once (markers go to cols[0] only); (C02.effects) no Apply outside commit ⇒ nothing on rollback; (C03.order) replay never reorders; (C03.register) CreateTrigger/DropTrigger." + staticNote,
